@@ -95,4 +95,16 @@ CHECKS = {
         "quick": {"rapid_checks": 2000, "timeout": 900},
         "thorough": {"rapid_checks": 40000, "timeout": 3000, "shards": 8},
     },
+    "C15": {
+        "pkg": "./checks/c15",
+        "race": True,
+        "level": "exploration",
+        "assumptions": [
+            "the reference for 'the generation of that file alone' is /repo's own parser+generator+go/format applied to the single file with its root-relative name",
+            "the root directory's own name is kept non-skippable; symlinks and watch mode are outside the statement",
+            "goroutine schedules are sampled (worker count, GOMAXPROCS), not enumerated",
+        ],
+        "quick": {"rapid_checks": 300, "timeout": 900},
+        "thorough": {"rapid_checks": 3000, "timeout": 3000, "shards": 8},
+    },
 }
